@@ -6,7 +6,9 @@ import (
 	"crypto/tls"
 	"crypto/x509"
 	"fmt"
+	"io"
 	"net"
+	"net/url"
 	"strings"
 	"sync"
 	"time"
@@ -42,6 +44,7 @@ type c07Case struct {
 	Origins    map[string]string `json:"origins"` // lower-case host -> kind of certificate its origin presents
 	WOne       int               `json:"w_one"`
 	WRand      int               `json:"w_rand"`
+	Upstream   string            `json:"upstream,omitempty"` // "" | http | https: everything leaves through an upstream proxy
 }
 
 var c07Hosts = []string{"a.mitm.example:443", "b.mitm.example:443", "A.MiTm.Example:443", "c.mitm.example:8443", "d.mitm.example:443", "e.mitm.example:443",
@@ -95,6 +98,7 @@ func genC07(t *tape.Tape, tier string) any {
 	}
 	c.WOne = t.Pick(6, 2, 1)
 	c.WRand = t.Pick(2, 4, 2) * 2
+	c.Upstream = []string{"", "http", "https"}[t.Pick(6, 1, 2)]
 	return c
 }
 
@@ -197,10 +201,53 @@ func runC07(env *core.Env, ci any) {
 		}
 		serve(env, node, net.JoinHostPort(ip, "*"), originServe)
 	}
+	if c.Upstream != "" {
+		n.AddNode("upstream", ipUpstream, "upstream.example")
+		serve(env, "upstream", ipUpstream+":8080", func(raw *simnet.Conn) {
+			var conn net.Conn = raw
+			if c.Upstream == "https" {
+				l := ca.ValidLeaf("upstream.example")
+				tc := tls.Server(raw, &tls.Config{Certificates: []tls.Certificate{l}})
+				if tc.Handshake() != nil {
+					raw.Close()
+					return
+				}
+				conn = tc
+			}
+			br := bufio.NewReader(conn)
+			m, err := h1.ReadRequest(br)
+			if err != nil || m.Method != "CONNECT" {
+				conn.Close()
+				return
+			}
+			farc, err := n.Dial(context.Background(), "upstream", m.Target)
+			var far *simnet.Conn
+			if err == nil {
+				far = farc.(*simnet.Conn)
+			}
+			if err != nil {
+				fmt.Fprintf(conn, "HTTP/1.1 502 Bad Gateway\r\nContent-Length: 0\r\n\r\n")
+				conn.Close()
+				return
+			}
+			fmt.Fprintf(conn, "HTTP/1.1 200 Connection established\r\n\r\n")
+			env.Probe("via_upstream_" + c.Upstream)
+			go func() {
+				io.Copy(far, br)
+				far.CloseWrite()
+			}()
+			io.Copy(conn, far)
+			conn.Close()
+			far.Close()
+		})
+	}
 	s, err := sut.Start(env, sut.Options{
 		Transport: func(tc *forwarder.HTTPTransportConfig) { tc.CACertFiles = []string{simtls.DataURI(ca.PEM())} },
 		Config: func(cfg *forwarder.HTTPProxyConfig) {
 			cfg.ProxyLocalhost = forwarder.AllowProxyLocalhost
+			if c.Upstream != "" {
+				cfg.UpstreamProxy = &url.URL{Scheme: c.Upstream, Host: "upstream.example:8080"}
+			}
 			cfg.IdleTimeout = 2000 * time.Hour
 			m := forwarder.DefaultMITMConfig()
 			m.CacheSize = uint32(c.CacheSize)
@@ -387,7 +434,7 @@ func init() {
 		Shape: func(ci any) string {
 			c := ci.(*c07Case)
 			var sb strings.Builder
-			fmt.Fprintf(&sb, "cs%d/ttl%d/val%d/d%d", c.CacheSize, c.TTLms/1000, c.ValidityMs/1000, len(c.Domains))
+			fmt.Fprintf(&sb, "cs%d/ttl%d/val%d/d%d/u%s", c.CacheSize, c.TTLms/1000, c.ValidityMs/1000, len(c.Domains), c.Upstream)
 			for _, w := range c.Waves {
 				fmt.Fprintf(&sb, "|j%d", w.JumpMs/1000)
 				for _, cn := range w.Conns {
@@ -398,6 +445,6 @@ func init() {
 		},
 		Real: append([]string{"internal/martian/mitm (leaf minting, cache with TTL and capacity, re-validation on hit), handleMITM, MITM domain filter, transport TLS verification of origins"}, realForwarder...),
 		Stub: stubCommon,
-		Rule: "certificate cache capacity 1..1024, cache TTL 1 s..6 h, leaf validity 2 s..24 h, optional mitm-domains include/exclude lists; 1-3 waves of 1-12 concurrent CONNECTs to DNS names (case variants), IPv4 and bracketed IPv6 literals and odd ports, with SNI equal / absent / different; between waves the fake clock jumps past the TTL and/or the validity; origins present valid, expired, wrong-name or untrusted certificates. Oracle: crypto/x509 verification at the client against the MITM CA with the simulated current time and the name asked for; origin request counters; excluded hosts must show the origin's own certificate. Non-trivial = all handshakes judged.",
+		Rule: "certificate cache capacity 1..1024, cache TTL 1 s..6 h, leaf validity 2 s..24 h, optional mitm-domains include/exclude lists; 1-3 waves of 1-12 concurrent CONNECTs to DNS names (case variants), IPv4 and bracketed IPv6 literals and odd ports, with SNI equal / absent / different; between waves the fake clock jumps past the TTL and/or the validity; origins present valid, expired, wrong-name or untrusted certificates; optionally everything leaves through an HTTP or HTTPS upstream proxy (a byte relay inside the simulation). Oracle: crypto/x509 verification at the client against the MITM CA with the simulated current time and the name asked for; origin request counters; excluded hosts must show the origin's own certificate. Non-trivial = all handshakes judged.",
 	})
 }
